@@ -859,8 +859,10 @@ func (m MemoryFeatureSource) Read(options ReadOptions, emit Emit, ctx context.Co
 	}
 	c := make(chan Feature, cores)
 	ctx, cancel := context.WithCancel(ctx)
+	defer cancel()
 	var wg sync.WaitGroup
 	var cause error
+	var lock sync.Mutex
 	feed := func(goroutine int) {
 		defer wg.Done()
 		for {
@@ -870,8 +872,13 @@ func (m MemoryFeatureSource) Read(options ReadOptions, emit Emit, ctx context.Co
 			case f, ok := <-c:
 				if ok {
 					if err := emit(f, goroutine); err != nil {
-						cause = err
+						lock.Lock()
+						if cause == nil {
+							cause = err
+						}
+						lock.Unlock()
 						cancel()
+						return
 					}
 				} else {
 					return
@@ -884,10 +891,20 @@ func (m MemoryFeatureSource) Read(options ReadOptions, emit Emit, ctx context.Co
 	for i := 0; i < cores; i++ {
 		go feed(i)
 	}
+feeding:
 	for _, f := range m {
-		c <- f
+		select {
+		case c <- f:
+		case <-ctx.Done():
+			// Either a callback failed, or the caller gave up: without
+			// anyone reading the channel, sending would block forever
+			break feeding
+		}
 	}
 	close(c)
 	wg.Wait()
+	if cause == nil {
+		return ctx.Err()
+	}
 	return cause
 }
